@@ -4,8 +4,8 @@ package main
 
 import (
 	"context"
-	"errors"
 	"encoding/json"
+	"errors"
 	"flag"
 	"fmt"
 	"os"
@@ -693,6 +693,11 @@ func (e *emitter) caseTerm(cs *Case, obs *Obs, log []evRec) string {
 func (e *emitter) run(cs *Case) {
 	cs.Obs = nil
 	obs, log := runStall(cs)
+	if obs.Bad != "" {
+		// re-executed once before it is reported (starvation on a shared machine)
+		e.meta.Hist("retried")
+		obs, log = runStall(cs)
+	}
 	for _, ev := range log {
 		obs.Log = append(obs.Log, strings.TrimSpace(fmt.Sprintf("%s %d %s %v", ev.kind, ev.i, ev.res, ev.resp)))
 	}
